@@ -147,3 +147,30 @@ def r3(rr, repo):
     body = [n for n in ast.walk(oma) if isinstance(n, ast.Call) and isinstance(n.func, ast.Name) and n.func.id == 'min']
     ok = bool(body) and all('& 4294967295' in U(a) or '& 0xFFFFFFFF' in U(a) for a in body[0].args) and len(body[0].args) == len(cut)
     rr.ob('the cut position is the first delimiter present (min over find() with -1 mapped above every index)', ok, cmod, oma, key='first-delim')
+
+
+@rule('C12.R4', 'the probe that decides auto-chaining (filter_can_do_filter_outputs) restores Filter.normalize_config on every exit, so wiring one filter cannot corrupt the normalisation of the next')
+def r4(rr, repo):
+    cmod, fn = repo.find(f'{CLI}::filter_can_do_filter_outputs')
+    stores = [n for n in ast.walk(fn) if isinstance(n, ast.Assign) and any('Filter.normalize_config' in U(t) for t in n.targets)]
+    rr.floor('assignments to Filter.normalize_config in the probe', len(stores), 2, cmod, fn)
+    saves = [n for n in stores if isinstance(n.value, ast.Tuple) and any(U(e) == 'Filter.normalize_config' for e in n.value.elts)]
+    restores = [n for n in stores if n not in saves]
+    saved_name = None
+    for s in saves:
+        for t, v in zip(s.targets[0].elts if isinstance(s.targets[0], ast.Tuple) else [], s.value.elts):
+            if U(v) == 'Filter.normalize_config' and isinstance(t, ast.Name):
+                saved_name = t.id
+    rr.ob('the original classmethod is saved before it is replaced', saved_name is not None, cmod, saves[0] if saves else fn, key='saved')
+    ok = False
+    for r in restores:
+        infinally = any(isinstance(a, ast.Try) and any(r is x or any(r is y for y in ast.walk(x)) for x in a.finalbody) for a in [p for p in __import__('ofverif.model', fromlist=['ancestors']).ancestors(r)])
+        if infinally and U(r.value) == saved_name:
+            ok = True
+            # the try that owns the finally must enclose the probing call
+            tr = [a for a in __import__('ofverif.model', fromlist=['ancestors']).ancestors(r) if isinstance(a, ast.Try)][0]
+            probe = [c for c in q.attr_calls(tr, 'normalize_config') if any(c is x for b in tr.body for x in ast.walk(b))]
+            rr.ob('the probing call runs inside the try whose finally restores the original', bool(probe), cmod, tr, key='probe-inside')
+            after_save = not saves or saves[0].lineno < tr.lineno
+            rr.ob('nothing between the replacement and the try can raise and skip the restore', after_save and not [s for s in fn.body if saves and saves[0].lineno < getattr(s, 'lineno', 0) < tr.lineno], cmod, tr, key='no-gap')
+    rr.ob('Filter.normalize_config is restored in a finally block', ok, cmod, restores[0] if restores else fn, key='restored')
